@@ -12,7 +12,7 @@ SITE = "bads.py:_bounds_check_"
 inf, nan = math.inf, math.nan
 
 # per-coordinate value menus (hard bounds -2, 2 in the generic case)
-X0 = ["absent", 0.5, -2.0, 2.0, 5.0, nan, 1.5, -2.0 + 1e-9, 1.999]
+X0 = ["absent", 0.5, -2.0, 2.0, 5.0, nan, 1.5, -2.0 + 1e-9, 1.999, 0.0, -1e-9]
 LB = ["absent", -inf, -2.0, 0.0, nan, 2.0, 2.0 - 4e-16]
 UB = ["absent", inf, 2.0, 0.0, -2.0, nan]
 PLB = ["absent", -1.0, 0.0, -3.0, nan, -inf, -2.0, 1.0, -1.9999]
@@ -90,7 +90,9 @@ def gen_cases(ctx):
     coords = [(0.5, -2., 2., -1., 1.), (0.5, -inf, inf, -1., 1.), (0.5, -2., inf, -1., 1.), (0.5, -inf, 2., -1., 1.), (-2., -2., 2., -1., 1.), (nan, -2., 2., -1., 1.),
               (0.5, -2., 2., -2., 2.), (5., -2., 2., -1., 1.), (0.5, -2., 2., 1., -1.), (0.5, 0., 0., 0., 0.), (0.5, -2., 2., 0., 0.), (1.5, -2., 2., -1., 1.),
               (0.5, -2., 2., -3., 1.), (0.5, -inf, inf, -inf, 1.), (2., -2., 2., -1., 1.), (0.5, -2., 2., -1.9999, -1.9998), (0.5, 2. - 4e-16, 2., 2. - 4e-16, 2.),
-              (0.5, nan, 2., -1., 1.), (0.5, -2., 2., nan, 1.), (0.05, 0.01, 100., 0.1, 10.), (1e11, 1., 1e12, 10., 1e11), (3., -2., 2., -1., 1.)]
+              (0.5, nan, 2., -1., 1.), (0.5, -2., 2., nan, 1.), (0.05, 0.01, 100., 0.1, 10.), (1e11, 1., 1e12, 10., 1e11), (3., -2., 2., -1., 1.),
+              # a hard bound that is exactly zero, start point on it / within the 0.1% margin of it
+              (0., -2., 0., -1.5, -0.5), (0., 0., 2., 0.5, 1.5), (-1e-9, -2., 0., -1.5, -0.5), (1e-9, 0., 2., 0.5, 1.5), (-1., -2., 0., -1.5, -0.5)]
     present = [(1, 1, 1, 1, 1), (0, 1, 1, 1, 1), (1, 0, 0, 1, 1), (1, 1, 1, 0, 0), (0, 1, 1, 0, 0), (1, 0, 0, 0, 0), (0, 0, 0, 1, 1), (1, 1, 1, 0, 1), (0, 0, 0, 0, 0), (1, 1, 0, 1, 1)]
     # D = 2: EVERY ordered pair of coordinate tuples with all vectors present (so that cross-coordinate effects of the
     # any()/sum() style tests are met), then random pairs/triples with the presence patterns
